@@ -259,10 +259,12 @@ class Agg(object):
         self.digests.update(o.digests)
 
 
-def _worker(check, w, nworkers, tier, seed, max_runs, deadline, keep_digests, only_class):
+def _worker(check, w, nworkers, tier, seed, max_runs, deadline, keep_digests, only_class, stop_flag=None):
     agg = Agg()
     i = w
     while i < max_runs and time.monotonic() < deadline:
+        if stop_flag is not None and stop_flag[0]:
+            break
         run_seed = rng.derive(check.pid, seed, i)
         try:
             case = check.generate(run_seed, i, tier)
@@ -281,14 +283,21 @@ def _worker(check, w, nworkers, tier, seed, max_runs, deadline, keep_digests, on
             agg.errors.append('run %d: %s' % (i, e))
             if len(agg.errors) > 20:
                 break
+        if agg.viols and stop_flag is not None:
+            stop_flag[0] = 1          # --first: one witness is enough (sensitivity self-test)
+            break
         if len(agg.viols) >= 40:
             break
         i += nworkers
     return agg
 
 
-def sweep(check, tier, seed, workers, budget_s, max_runs, keep_digests=False, only_class=None):
+def sweep(check, tier, seed, workers, budget_s, max_runs, keep_digests=False, only_class=None, first=False):
     deadline = time.monotonic() + budget_s
+    stop_flag = None
+    if first:
+        import mmap
+        stop_flag = mmap.mmap(-1, 1)      # shared with the forked workers
     procs = []
     for w in range(workers):
         r, wfd = os.pipe()
@@ -299,7 +308,7 @@ def sweep(check, tier, seed, workers, budget_s, max_runs, keep_digests=False, on
                 os.close(r)
                 try:
                     agg = _worker(check, w, workers, tier, seed, max_runs, deadline,
-                                  keep_digests, only_class)
+                                  keep_digests, only_class, stop_flag)
                 except BaseException:
                     agg = Agg()
                     agg.errors.append('worker %d crashed:\n%s' % (w, traceback.format_exc()))
@@ -518,6 +527,7 @@ def main(check, argv):
     ap.add_argument('--digests', help='write {run index: event-log digest} here (determinism self-test)')
     ap.add_argument('--no-evidence', action='store_true')
     ap.add_argument('--only-class')
+    ap.add_argument('--first', action='store_true', help='stop the sweep at the first violation (sensitivity self-test)')
     ap.add_argument('--shrink-budget', type=float)
     args = ap.parse_args(argv)
 
@@ -534,7 +544,7 @@ def main(check, argv):
           % (check.pid, tier, args.seed, args.workers, budget, max_runs, os.path.abspath(REPO)))
     sys.stdout.flush()
     agg = sweep(check, tier, args.seed, args.workers, budget, max_runs,
-                keep_digests=bool(args.digests), only_class=args.only_class)
+                keep_digests=bool(args.digests), only_class=args.only_class, first=args.first)
     extra = {}
     if hasattr(check, 'post_sweep'):
         extra = check.post_sweep(agg) or {}
